@@ -242,7 +242,7 @@ def _(a):
     return lambda: ssa.sign_(bytes.fromhex(a["msg"]), a["q"], aux)
 
 
-@op("ssa_verify", st.fixed_dictionaries({"q": key(), "msg": st.binary(max_size=70).map(bytes.hex), "variant": st.sampled_from(["valid", "valid", "bit-s", "bit-r", "s>=n", "r>=p", "x>=p", "x-unliftable", "x-as-sec", "sig-bytes", "sig-63", "neg-s"]), "x": st.integers(0, 2**256 - 1)}))
+@op("ssa_verify", st.fixed_dictionaries({"q": key(), "msg": st.binary(max_size=70).map(bytes.hex), "variant": st.sampled_from(["valid", "valid", "bit-s", "bit-r", "s>=n", "s=n", "r=p", "r>=p", "x>=p", "x-unliftable", "x-as-sec", "sig-bytes", "sig-63", "neg-s"]), "x": st.integers(0, 2**256 - 1)}))
 def _(a):
     m = bytes.fromhex(a["msg"])
     sig = fastec.schnorr_sign(m, a["q"])
@@ -254,6 +254,8 @@ def _(a):
     if v == "bit-s": s ^= 1
     elif v == "bit-r": r ^= 1
     elif v == "s>=n": s += N
+    elif v == "s=n": s = N
+    elif v == "r=p": r = P
     elif v == "r>=p": r += P
     elif v == "neg-s": s = N - s
     elif v == "x>=p": keyarg = x + P
